@@ -1,5 +1,5 @@
 // Package vsync is a drop-in replacement for the parts of package sync the
-// repository uses. The overlay generator rewrites `import "sync"` in the code
+// repository uses. The overlay generator rewrites the sync import in the code
 // under test to this package. With no controller installed every type behaves
 // exactly like the real one (it IS the real one underneath); with a controller
 // (the cooperative scheduler of package sched) Lock/RLock/Wait become
@@ -8,7 +8,11 @@
 // exclusion.
 package vsync
 
-import "sync"
+import (
+	"runtime"
+	"sync"
+	"time"
+)
 
 type (
 	Locker = sync.Locker
@@ -40,13 +44,46 @@ type Mutex struct {
 	held bool
 }
 
+// LockTimeout bounds how long an unmanaged Lock may wait before it is reported
+// as a (self-)deadlock by panicking; the harnesses recover and report it. The
+// code under test never holds these locks across blocking operations, so a
+// wait of this length means the lock will never be released.
+var LockTimeout = 20 * time.Second
+
+// ErrDeadlock is the panic value of a Lock that timed out.
+const ErrDeadlock = "vsync: lock not acquired within the timeout: deadlock (a goroutine re-locks a mutex it holds, or a lock is never released)"
+
+func lockOrPanic(try func() bool, lock func()) {
+	if try() {
+		return
+	}
+	if LockTimeout <= 0 {
+		lock()
+		return
+	}
+	deadline := time.Now().Add(LockTimeout)
+	for i := 0; ; i++ {
+		if try() {
+			return
+		}
+		if i < 100 {
+			runtime.Gosched()
+		} else {
+			time.Sleep(50 * time.Microsecond)
+		}
+		if time.Now().After(deadline) {
+			panic(ErrDeadlock)
+		}
+	}
+}
+
 func (m *Mutex) Lock() {
 	if managed() {
 		Ctl.Acquire(m, "Lock", func() bool { return !m.held })
 		m.held = true
 		return
 	}
-	m.real.Lock()
+	lockOrPanic(m.real.TryLock, m.real.Lock)
 }
 
 func (m *Mutex) TryLock() bool {
@@ -87,7 +124,7 @@ func (m *RWMutex) Lock() {
 		m.writer = true
 		return
 	}
-	m.real.Lock()
+	lockOrPanic(m.real.TryLock, m.real.Lock)
 }
 
 func (m *RWMutex) Unlock() {
@@ -107,7 +144,7 @@ func (m *RWMutex) RLock() {
 		m.readers++
 		return
 	}
-	m.real.RLock()
+	lockOrPanic(m.real.TryRLock, m.real.RLock)
 }
 
 func (m *RWMutex) RUnlock() {
